@@ -24,6 +24,10 @@ SLOT = {('solid', False): {'y1': 0, 'y2': 1, 'y3': 2, 'y4': 3, 'y5': 4, 'y6': 5}
 MAXY = 6
 
 
+TECHNIQUE += '; recorded arguments of cf_apply_surface_bc (surface gravity and G of the unit system of the solve); declared C integer widths of loop indices against their bounds'
+
+EXPLANATION += ' R02.9 the surface routine receives the gravity and G of the unit system the layers were integrated in; R02.10 no loop index narrower than its bound (interface and surface rows of finer grids).'
+
 def run(chk):
     repo = Repo(chk.repo)
     d = X.Decider(seed=chk.seed, k=3 if chk.tier == 'quick' else 8)
